@@ -5,6 +5,13 @@ HERE = os.path.dirname(os.path.dirname(os.path.abspath(__file__)))
 
 # id -> (level, technique, text, note, design_ref, engine)
 CHECKS = {
+ "C05": ("exploration", "exhaustive enumeration of the 125 redirection configurations x generated variants; child self-report of fd identity, same-description probes, offset/tag effects",
+         "All 125 assignments are run with real children and generated variations (file kinds, shared Rc / dup'ed files, repeated spawns, short-lived spawning thread) while the harness's own fds 0-2 are replaced by distinct files; identity of each child stream is established by dev/ino, pairwise same-open-file-description probes and by observing, through handles the harness kept, the offsets and tags the child leaves behind.",
+         "Exhaustive over configurations, sampled over variants; trusts fstat and the shared-flag/offset probes as identity of an open file description.", "DESIGN.md 4 (C05)", "real"),
+ "C08": ("exploration", "proptest spawn histories + controlled thread schedules at syscall granularity; pipe registry vs. children's /proc fd tables",
+         "Every pipe the library creates is registered by the interposed pipe()/pipe2(); after every step of a generated history (single spawns, pipelines, communicate, stream adapters, all handles staying open) and during generated interleavings of 2-3 spawning threads (cooperative scheduler hooked into every interposed call) each child's descriptor table is read and any registered pipe end that is not that child's own standard stream is a violation; EOF propagation is then checked behaviourally.",
+         "Yield points sit at libc call boundaries; only pipes the library itself created are judged.", "DESIGN.md 4 (C08), 2.3.3, 2.3.7", "real"),
+
  "C07": ("fault_enumeration", "dry-run call counting + injection of an errno at every (call kind, ordinal) in parent and forked child, plus real failure causes; audits",
          "For each configuration every pipe/fcntl/fork call of the parent and every chdir/dup2/setuid/setgid/setpgid/exec call of the forked child is failed once (link-time interposition, fault plan inherited across fork); eight real causes are applied too. Err must carry the step's errno, nothing may have started, no child and no descriptor may remain; without a fault the program must really have started.",
          "Quick samples 48 configurations, thorough enumerates all 1056; the errno per point is drawn from a list of 14.", "DESIGN.md 4 (C07), 2.3.5", "real"),
